@@ -165,11 +165,13 @@ ClaimsX(r, x) == IF r.f = "A" THEN x % 32 = r.x
 NoRow == R(64, 0, "none", "", "none", "z", 0, "")
 \* The table as a function: extended primaries -> 10-bit opcode -> row (NoRow where undefined).
 \* PPCSelf.tla checks that it is a function (no two rows claim one (primary, extended) pair).
-ExtTab == TLCEval([p \in ExtPrims |-> TLCEval([x \in 0..1023 |->
-             LET S == {i \in 1..Len(ExtSeq) : ExtSeq[i].p = p /\ ClaimsX(ExtSeq[i], x)} IN
-             IF S = {} THEN NoRow ELSE ExtSeq[CHOOSE i \in S : TRUE]])])
-PrimTab == TLCEval([p \in 0..63 |->
-             LET S == {i \in 1..Len(PrimSeq) : PrimSeq[i].p = p} IN IF S = {} THEN NoRow ELSE PrimSeq[CHOOSE i \in S : TRUE]])
+\* (bound names are deliberately unusual: a VARIABLE of the same name in an extending module makes TLC
+\*  treat the definition as state-level and re-evaluate the whole table on every use)
+ExtTab == TLCEval([tp_ \in ExtPrims |-> TLCEval([tx_ \in 0..1023 |->
+             LET S == {ti_ \in 1..Len(ExtSeq) : ExtSeq[ti_].p = tp_ /\ ClaimsX(ExtSeq[ti_], tx_)} IN
+             IF S = {} THEN NoRow ELSE ExtSeq[CHOOSE ti_ \in S : TRUE]])])
+PrimTab == TLCEval([tp_ \in 0..63 |->
+             LET S == {ti_ \in 1..Len(PrimSeq) : PrimSeq[ti_].p = tp_} IN IF S = {} THEN NoRow ELSE PrimSeq[CHOOSE ti_ \in S : TRUE]])
 RowOf(w) == IF Prim(w) \in ExtPrims THEN ExtTab[Prim(w)][XO10(w)] ELSE PrimTab[Prim(w)]
 
 (* ------------------------------------------------------------------------ *)
